@@ -68,6 +68,14 @@ def printerTags : PExpr → List String
     (if needsParens e then ["prefix-paren"] else []) ++ printerTags e
   | _ => []
 
+/-- some literal has a `-0.0` component -/
+def hasNegZero : PExpr → Bool
+  | .call _ e => hasNegZero e
+  | .bin l _ r => hasNegZero l || hasNegZero r
+  | .number z => z.re == two63 || z.im == two63
+  | .pre _ e => hasNegZero e
+  | _ => false
+
 def nontrivial : PExpr → Bool
   | .number z => !(fZero z.im && !fSign z.re)
   | e => e.depth ≥ 1
@@ -122,7 +130,9 @@ def handle (inp out : Sexp) : CaseResult :=
         let toksOk := iToks == mToks
         let backOk := iBack == mBack
         let thmOk := mBack == normBack
-        let agree := toksOk && backOk && thmOk && lexModelOk && hypFinite && hypNumTok && hypLaws
+        -- outside the `negzero` stream the hypotheses of the theorem must hold of every generated input
+        let hypOk := if stream == "negzero" then true else hypFinite && hypNumTok && hypLaws
+        let agree := toksOk && backOk && thmOk && lexModelOk && hypOk
         let reparsed := match iBack with | .list [.atom "ok", _] => true | _ => false
         let valsOk := allAgree valAgree orig re
         let bitsOk := allAgree valBitEq orig re
@@ -132,7 +142,10 @@ def handle (inp out : Sexp) : CaseResult :=
           tags := ["s-" ++ stream, s!"depth{min e.depth 8}", lenTag toks.length,
             (if norm e == e then "norm-same" else "norm-changed"),
             (if bitsOk then "vals-bit-identical" else "vals-close-only")] ++
-            (ctorTags e).eraseDups ++ (printerTags e).eraseDups ++ tokKindTags toks ++ evalKinds,
+            (ctorTags e).eraseDups ++ (printerTags e).eraseDups ++ tokKindTags toks ++ evalKinds ++
+            (if hasNegZero e then ["has-negzero"] else []) ++
+            -- candidate known finding: the values differ AND the input has a literal with a -0.0 component
+            (if !(reparsed && valsOk) && hasNegZero e then ["kf:C03/negative-zero-literal"] else []),
           detail := s!"toksOk={toksOk} backOk={backOk} thmOk={thmOk} lexModelOk={lexModelOk} finiteLits={hypFinite} numTokOk={hypNumTok} litLaws={hypLaws} reparsed={reparsed} valsOk={valsOk} text={repr text} modelToks={mToks} implToks={iToks} modelBack={mBack} implBack={iBack} norm={normBack} orig={Sexp.list orig} re={Sexp.list re}" }
       | _ =>
         { agree := false, specOk := false, nontrivial := nontrivial e, tags := ["s-" ++ stream, "bad-output"],
